@@ -311,6 +311,8 @@ def gen_call_case(rng):
             lines.append("step %d" % rng.choice(STEPS))
             lines.append("thread-result")
     lines += ["step 1000", "thread-result", "step 1000", "thread-result"]
+    # a third of the host calls go through the by-name overloads ExecuteThread(name, [event,] label)
+    lines = [l.replace("call m ", "call @m ", 1) if l.startswith("call m ") and rng.random() < 0.33 else l for l in lines]
     return lines
 
 
